@@ -92,3 +92,15 @@ TEXT["C12"] = {"technique": "property-based testing (rapidcheck) with harness-ow
                         "A ThreadSanitizer build runs generated concurrent evaluations on one optimizer with per-thread workspaces, with and without a prior single-threaded call; any race report or any thread result differing from the sequential call is a violation.",
                "note": _BASE_NOTE + " TSan replaces ASan/UBSan for the race half. The defect this check found on the pinned tree (F2) is repaired by a 'fix:' commit in /repo and kept as a regression case."}
 EXTRA_ENGINES.append({"name": "ThreadSanitizer", "path": "harness/src/opt_sched.cpp", "serves_properties": ["C12"], "kind_free_text": "clang -fsanitize=thread build of the concurrent-evaluation half of C12, driven by the same rapidcheck front end"})
+
+# engines / techniques that changed after the first version
+for _p in ("C03", "C11", "C16", "C20"):
+    TEXT[_p]["engine"] = "rapidcheck + libFuzzer"
+    TEXT[_p]["technique"] += "; coverage-guided fuzzing (libFuzzer) of the same check function"
+TEXT["C07"]["technique"] = ("property-based testing (rapidcheck) over an exhaustively enumerated configuration space (256 flag sets x 3 map pairs per order and dimension): (a) finite differences (Richardson, self-calibrating slack) "
+                            "of the cost returned by the same call; (b) differential against a gradient re-derived from the reference minimiser, the user's cost gradients, the documented quadrature and a dense long-double Jacobian")
+TEXT["C07"]["level"] += (" A second, non-FD oracle (C07x) re-derives the gradient from the reference minimiser, the user's cost gradients at the reference states, the documented quadrature and the reference Jacobian, for all three map pairs, "
+                         "and compares every entry at 1e-7 of a condition-aware scale (measured worst 4e-11).")
+TEXT["C18"]["technique"] += "; guided search (hill climbing over the duration genome, generated moves) for the worst residual under a ratio cap"
+EXTRA_ENGINES.append({"name": "libFuzzer", "path": "harness/src/fuzz_ppoly.cpp", "serves_properties": ["C03", "C11", "C16", "C20"],
+                      "kind_free_text": "clang -fsanitize=fuzzer,address,undefined; input bytes are read as the word tape of the same check function; quick tier replays corpus/<id>/, thorough tier runs 4 campaigns of 4e5 runs"})
